@@ -27,6 +27,14 @@ OPS = [
     {'kind': 'attr', 'path': 'sfs.cov'}, {'kind': 'attr', 'path': 'sfs.corr'}, {'kind': 'attr', 'path': 'fsfs.cov'},
     {'kind': 'attr', 'path': 'fsfs.corr'}, {'kind': 'attr', 'path': 'tree_height.std'},
     {'kind': 'moment', 'route': 'coal', 'k': 2, 'rewards': [['TreeHeight'], ['TotalBranchLength']], 'center': True},
+    # ordered (permute=False) moments, centred and raw, on the persistent distribution objects
+    {'kind': 'moment', 'dist': 'tree_height', 'k': 2, 'center': True, 'permute': False},
+    {'kind': 'moment', 'dist': 'tree_height', 'k': 2, 'center': False, 'permute': False},
+    {'kind': 'moment', 'dist': 'total_branch_length', 'k': 2, 'center': True, 'permute': False},
+    {'kind': 'moment', 'dist': 'sfs', 'k': 2, 'center': True, 'permute': False},
+    {'kind': 'moment', 'dist': 'tree_height', 'k': 3, 'center': True},
+    {'kind': 'attr', 'path': 'tree_height.m2'}, {'kind': 'attr', 'path': 'total_branch_length.var'},
+    {'kind': 'moment', 'dist': 'tree_height', 'k': 2, 'center': False},
 ]
 
 
@@ -66,6 +74,18 @@ def run(res, replay=None):
                        {'kind': 'ss', 'space': sp, 'what': 'update_epoch', 't': bs[-1]}, {'kind': 'ss', 'space': sp, 'what': 'S'}]
                 ops = pre + ops
             cases.append({'spec': s, 'ops': ops, 'cache': (rng.random() < 0.75) if i % 4 != 1 else False, 'parallelize': (i % 5 == 4)})
+    if not replay:
+        # designed histories: an unusual request first, the everyday statistics that share its memo entries afterwards
+        s = gen.rand_spec(rng, n_total=rng.choice([3, 4]), n_demes=1, n_epochs=2, end_time='never')
+        M = lambda d, **kw: dict({'kind': 'moment', 'dist': d, 'k': 2}, **kw)
+        A = lambda p: {'kind': 'attr', 'path': p}
+        cases.append({'spec': s, 'cache': True, 'parallelize': False, 'ops': [
+            M('tree_height', center=True, permute=False), A('tree_height.var'), A('tree_height.m2'),
+            M('total_branch_length', center=True, permute=False), A('total_branch_length.var'),
+            M('sfs', center=True, permute=False), A('sfs.var'), A('sfs.cov'),
+            {'kind': 'accumulate', 'dist': 'tree_height', 'k': 2, 'ts': [1.0, 2.0], 'center': True, 'permute': False},
+            {'kind': 'accumulate', 'dist': 'tree_height', 'k': 2, 'ts': [1.0, 2.0], 'center': False},
+            A('sfs.corr'), A('sfs.cov'), A('fsfs.corr'), A('fsfs.cov'), A('fsfs.var')]})
     outs = C.run_impl_parallel('histories.py', [{'cases': [c]} for c in cases], timeout=2400)
     bodies, keep = [], []
     for i, (c, o) in enumerate(zip(cases, outs)):
